@@ -200,7 +200,7 @@ Definition mod_step (s : mst) (c : ascii) : mst :=
       if 0 <? ms_setting s then mst_fail s
       else let sm := N.land mask g in
            if Z.ltb 0 a then MkMst a g sm (ms_and s) (N.lor (ms_or s) sm) false
-           else MkMst a g sm (N.land (ms_and s) (N.lxor PermBits sm)) (ms_or s) false
+           else MkMst a g sm (N.land (ms_and s) (N.lxor PermBits sm)) (N.ldiff (ms_or s) sm) false
     | None =>
       if Ascii.eqb c c_comma then MkMst 0%Z 0 0 (ms_and s) (ms_or s) false
       else mst_fail s
